@@ -4,6 +4,7 @@ mod c01g;
 mod c02;
 mod c12;
 mod c13;
+mod c15p;
 mod ledger;
 mod shimconf;
 
@@ -31,6 +32,7 @@ fn main() {
         "c12_watcher" => c12::run(&args),
         "c13_types" => c13::run(&args),
         "shimconf" => shimconf::run(&args),
+        "c15_proc" => c15p::run(&args),
         s => {
             eprintln!("unknown subcheck {s}");
             std::process::exit(2)
